@@ -27,7 +27,13 @@ def run_serializer(rec, rnd, cycles, case):
             resp = TestbenchIO(Adapter(o=[("val", 16)]))
             dut = Serializer(port_count=ports, serialized_req_method=req.adapter.iface, serialized_resp_method=resp.adapter.iface, depth=depth)
             circ = SimpleTestCircuit(dut, exclude={"serialized_req_method", "serialized_resp_method"})
-            top = ModuleConnector(circ=circ, req=req, resp=resp)
+            # in half of the histories every client port has a second, competing caller on serialize_in and serialize_out
+            rv = None
+            if case.get("library_history", case.get("history", 0)) % 2 == 1:
+                from ..comp.driver import RivalSet
+                rv = RivalSet({**{f"in{k}": mth for k, mth in enumerate(dut.serialize_in)}, **{f"out{k}": mth for k, mth in enumerate(dut.serialize_out)}})
+                rec.count("histories_with_rival_callers")
+            top = ModuleConnector(circ=circ, req=req, resp=resp, **({"rivals": rv} if rv is not None else {}))
             sim = PysimSimulator(top, max_cycles=cycles + 60)
             from .. import txsan
             txsan.maybe_attach(sim, case)
@@ -40,6 +46,9 @@ def run_serializer(rec, rnd, cycles, case):
             ins, outs = circ.serialize_in, circ.serialize_out
             sigs = [io.adapter.done for io in ins] + [x for io in outs for x in (io.adapter.done, io.adapter.data_out)] + \
                    [req.adapter.done, req.adapter.data_out, resp.adapter.done]
+            nmain = len(sigs)
+            if rv is not None:
+                sigs += rv.signals()
             trig = ctx.tick().sample(*sigs)
             server = collections.deque()  # ids accepted by the server, in order
             sent = [collections.deque() for _ in range(ports)]
@@ -58,11 +67,19 @@ def run_serializer(rec, rnd, cycles, case):
                     psrv = rnd.choice([0.3, 0.7, 1.0])
                 ids = []
                 for k, io in enumerate(ins):
-                    ctx.set(io.adapter.en, (not drain) and rnd.random() < pin[k])
-                    ctx.set(io.adapter.data_in, {"id": (nid + k) & 0xFFFF})
+                    en_k = (not drain) and rnd.random() < pin[k]
+                    if rv is not None:
+                        rv.request(ctx, rnd, f"in{k}", io, en_k, {"id": (nid + k) & 0xFFFF}, rec)
+                    else:
+                        ctx.set(io.adapter.en, en_k)
+                        ctx.set(io.adapter.data_in, {"id": (nid + k) & 0xFFFF})
                     ids.append((nid + k) & 0xFFFF)
                 for k, io in enumerate(outs):
-                    ctx.set(io.adapter.en, drain or rnd.random() < pout[k])
+                    en_k = drain or rnd.random() < pout[k]
+                    if rv is not None:
+                        rv.request(ctx, rnd, f"out{k}", io, en_k, None, rec)
+                    else:
+                        ctx.set(io.adapter.en, en_k)
                 ctx.set(req.adapter.en, drain or rnd.random() < preq)
                 have = len(server) > 0 and cyc - ages[0] >= lat and (drain or rnd.random() < psrv)
                 ctx.set(resp.adapter.en, have)
@@ -70,7 +87,12 @@ def run_serializer(rec, rnd, cycles, case):
                 _, _, *v = await trig
                 d_in = [bool(x) for x in v[:ports]]
                 d_out = [bool(x) for x in v[ports:ports + 2 * ports:2]]
-                o_out = v[ports + 1:ports + 2 * ports:2]
+                o_out = list(v[ports + 1:ports + 2 * ports:2])
+                if rv is not None:
+                    rvals = v[nmain:]
+                    for k in range(ports):
+                        d_in[k], _ = rv.fold(rec, case, f"in{k}", d_in[k], None, rvals, {"cycle": cyc})
+                        d_out[k], o_out[k] = rv.fold(rec, case, f"out{k}", d_out[k], o_out[k], rvals, {"cycle": cyc})
                 d_req, a_req, d_resp = bool(v[3 * ports]), v[3 * ports + 1], bool(v[3 * ports + 2])
                 entry = {"cycle": cyc, "serialize_in_done": d_in, "serialize_out_done": d_out, "req_done": d_req, "resp_done": d_resp,
                          "outstanding": [list(s) for s in sent]}
